@@ -18,18 +18,22 @@ def fmt_out(out, fmt):
         return out
     nl = os.linesep.encode()
     if not out.endswith(nl):
-        raise RuntimeError("CliOutputNotTerminated")
+        raise CliMalformed("output not newline-terminated")
     t = out[:-len(nl)].decode("ascii")
     if fmt == "hex":
         if len(t) % 2 or t != t.lower():
-            raise RuntimeError("CliOutputNotHex")
+            raise CliMalformed("output is not lower-case hex")
         return bytes.fromhex(t)
     if len(t) % 8 or any(ch not in "01" for ch in t):
-        raise RuntimeError("CliOutputNotBin")
+        raise CliMalformed("output is not a binary string of whole bytes")
     return int(t, 2).to_bytes(len(t) // 8, "big") if t else b""
 
 
-class CliEmittedOnRefusal(Exception):
+class CliEmittedOnRefusal(Exception):      # class names starting with "Cli" map to the error kind "Violation",
+    pass                                   # which never agrees with the model (common.err_kind)
+
+
+class CliMalformed(Exception):
     pass
 
 
